@@ -3,15 +3,17 @@ import PqModel.WriteOwn
 
 /-! Line-protocol op of the write-side model of C16.
 
-`own.run <shape> <arrays> <rows> <batches>`
-  shape   postfix, comma separated: `S<id>:<failAt>` sink, `R<id>` row buffer, `F<asIs>:<id>:<k>`,
-          `T<id>:<k>`, `D<id>:<k>` (wrap the writer on top of the stack), `M` (pops b, then a)
-  arrays  the caller's backing arrays 1..n: `v.v.v;v.v` (array 0 is the dummy, `-` = none)
-  rows    `arr:off:len:cap;...` in the order they are passed
-  batches comma list of batch sizes (one `WriteRows` call each)
-answers `ok <n:err,...> <leaf>+<leaf>... <arrays 1..n after the history>` where a leaf is
-`S<id>[batch|batch]` (batch = rows joined by `;`, row = values joined by `.`, `e` = empty row) or
-`R<id>[row;row]`.
+`own.run <shape> <arrays> <rowarrays> <batches>`
+  shape     postfix, comma separated: `S<id>:<failAt>` sink, `R<id>` row buffer, `F<asIs>:<id>:<k>`,
+            `T<id>:<k>`, `D<id>:<k>` (wrap the writer on top of the stack), `M` (pops b, then a)
+  arrays    the caller's `[]Value` backing arrays 1..n: `v.v.v;v.v` (array 0 is the dummy, `-` = none)
+  rowarrays the caller's `[]Row` backing arrays 2..: arrays separated by `|`, each a `;` list of row
+            headers `arr:off:len:cap` over its whole capacity (`e` = an array of capacity 0, `-` = none;
+            `[]Row` arrays 0 and 1 are the dummies)
+  batches   comma list of `[]Row` slice headers `arr:off:len:cap` (one `WriteRows` call each, `-` = none)
+answers `ok <n:err,...> <leaf>+<leaf>... <arrays 1..n after the history> <rowarrays after the history>`
+where a leaf is `S<id>[batch|batch]` (batch = rows joined by `;`, row = values joined by `.`, `e` = empty
+row) or `R<id>[row;row]`.
 
 The caller-supplied functions are fixed functions of the first value h of a row (0 if none):
   pred k      (h + k) % 3 ≠ 0
@@ -79,32 +81,43 @@ def hdr? (s : String) : Option Hdr :=
   | some [a, o, l, c] => some ⟨a, o, l, c⟩
   | _ => none
 
-def splitBatches : List Nat → List Hdr → List (List Hdr)
-  | [], _ => []
-  | b :: bs, rows => rows.take b :: splitBatches bs (rows.drop b)
+def rhdr? (s : String) : Option RHdr :=
+  match nats? ":" s with
+  | some [a, o, l, c] => some ⟨a, o, l, c⟩
+  | _ => none
+
+def rowArray? (s : String) : Option (List Hdr) :=
+  if s == "e" then some [] else (s.splitOn ";").mapM hdr?
 
 def showRow (vs : List Val) : String := if vs.isEmpty then "e" else ".".intercalate (vs.map toString)
 
-def leaves (st : St) (m : Mem) : Shape → List String
+def showHdr (h : Hdr) : String := s!"{h.arr}:{h.off}:{h.len}:{h.cap}"
+
+def showRowArray (hs : List Hdr) : String := if hs.isEmpty then "e" else ";".intercalate (hs.map showHdr)
+
+def leaves (st : St) (m : Mem) (rm : RMem) : Shape → List String
   | .sink id _ => [s!"S{id}[" ++ "|".intercalate ((st.node id).got.map fun b => ";".intercalate (b.map showRow)) ++ "]"]
-  | .rowbuf id => [s!"R{id}[" ++ ";".intercalate ((st.node id).slots.map fun h => showRow (row m h)) ++ "]"]
-  | .filter _ _ _ inner => leaves st m inner
-  | .transform _ _ inner => leaves st m inner
-  | .dedupe _ _ inner => leaves st m inner
-  | .multi a b => leaves st m a ++ leaves st m b
+  | .rowbuf id => [s!"R{id}[" ++ ";".intercalate ((rowsOf rm (st.node id).slots).map fun h => showRow (row m h)) ++ "]"]
+  | .filter _ _ _ inner => leaves st m rm inner
+  | .transform _ _ inner => leaves st m rm inner
+  | .dedupe _ _ inner => leaves st m rm inner
+  | .multi a b => leaves st m rm a ++ leaves st m rm b
 
 def handle (toks : List String) : Option String :=
   match toks with
   | ["own.run", shS, arrS, rowS, batS] => some <|
     match shape? shS, (if arrS == "-" then some [] else (arrS.splitOn ";").mapM (nats? ".")),
-          (if rowS == "-" then some [] else (rowS.splitOn ";").mapM hdr?), nats? "," batS with
-    | some sh, some arrs, some rows, some bats =>
+          (if rowS == "-" then some [] else (rowS.splitOn "|").mapM rowArray?),
+          (if batS == "-" then some [] else (batS.splitOn ",").mapM rhdr?) with
+    | some sh, some arrs, some rarrs, some bats =>
       let m0 : Mem := [] :: arrs
+      let rm0 : RMem := (false, []) :: (true, []) :: rarrs.map fun hs => (false, hs)
       let st0 : St := List.replicate (maxId sh + 1) {}
-      let r := run beh sh (splitBatches bats rows) st0 m0
-      let rets := ",".intercalate (r.2.2.map fun (n, e) => s!"{n}:{if e then 1 else 0}")
-      let mem := ";".intercalate (((r.2.1.drop 1).take arrs.length).map showRow)
-      s!"ok {if rets.isEmpty then "-" else rets} {"+".intercalate (leaves r.1 r.2.1 sh)} {if mem.isEmpty then "-" else mem}"
+      let r := run beh sh bats st0 m0 rm0
+      let rets := ",".intercalate (r.rets.map fun (n, e) => s!"{n}:{if e then 1 else 0}")
+      let mem := ";".intercalate (((r.m.drop 1).take arrs.length).map showRow)
+      let rmem := "|".intercalate (((r.rm.drop 2).take rarrs.length).map fun x => showRowArray x.2)
+      s!"ok {if rets.isEmpty then "-" else rets} {"+".intercalate (leaves r.st r.m r.rm sh)} {if mem.isEmpty then "-" else mem} {if rmem.isEmpty then "-" else rmem}"
     | _, _, _, _ => "err parse"
   | _ => none
 
